@@ -620,10 +620,19 @@ func runSchemes(r *runner, qk, qb *big.Int) {
 			add('A', as.apply(policy{fam: 'U', ids: rangeIDs(1, n)}), true)
 		}
 	}
+	if a.Tier == "thorough" {
+		rs := vh.NewRng(a.Seed, "C02", "schemesample", 0)
+		c5 := enumCNF(5)
+		for i := 0; i < 300; i++ {
+			add('I', vh.Pick(rs, c5), true)
+		}
+	}
 	for n := 2; n <= maxN; n++ {
-		for _, p := range enumCNF(n) {
-			add('I', p, true)
-			add('I', assignment{"sparse", sparseIDs}.apply(p), true)
+		if n <= 4 {
+			for _, p := range enumCNF(n) {
+				add('I', p, true)
+				add('I', assignment{"sparse", sparseIDs}.apply(p), true)
+			}
 		}
 		for _, p := range enumHier(n) {
 			add('I', p, true)
